@@ -243,8 +243,8 @@ impl TxnSession {
 //@@ attr #[verifier::loop_isolation(false)]
 //@@ shape loops=for,for;stmt-1=Ok (
 //@@ ret Result<Result<Accepted, TransactionError>, SessionInnerError>
-//@@ subst `transfer.state = txn_state.outcome.map(Into::into);` => `transfer.state = txn_state.outcome.map(|o: Outcome| -> (d: DeliveryState) ensures d == outcome_to_state(o) { outcome_into_state(o) });` rule=R17
-//@@ subst `disposition.state = txn_state.outcome.map(Into::into)` => `disposition.state = txn_state.outcome.map(|o: Outcome| -> (d: DeliveryState) ensures d == outcome_to_state(o) { outcome_into_state(o) })` rule=R17
+//@@ subst `transfer.state = txn_state.outcome.map(Into::into);` => `transfer.state = txn_state.outcome.map(|o: Outcome| -> (d: DeliveryState) ensures d == outcome_to_state(o) { outcome_into_state(o) });` rule=R17 unless `\.map\(`
+//@@ subst `disposition.state = txn_state.outcome.map(Into::into)` => `disposition.state = txn_state.outcome.map(|o: Outcome| -> (d: DeliveryState) ensures d == outcome_to_state(o) { outcome_into_state(o) })` rule=R17 unless `\.map\(`
 //@@ subst `|_v0| Self::Error::IllegalState` => `|_v0: ChanSendError| SessionInnerError::IllegalState` rule=optional-R5
 //@@ subst `|_v1| Self::Error::IllegalState` => `|_v1: ChanSendError| SessionInnerError::IllegalState` rule=optional-R5
 //@@ spec
